@@ -122,3 +122,22 @@ Proof. intros v w Hv Hw. unfold cmp_packagist, cmp_packagist_pure, by_key. rewri
 Lemma cmp_packagist_laws_on_valid :
   trans_law_on valid_packagist cmp_packagist /\ eq_equiv_law_on valid_packagist cmp_packagist.
 Proof. apply (laws_of_tp _ _ cmp_packagist_pure); [apply cmp_packagist_pure_tp | apply cmp_packagist_on_valid]. Qed.
+
+(* ------------------------------------------------------------------ string level *)
+Lemma packagist_str_total : forall a b, exists c, compare_str_packagist a b = Ok c.
+Proof. intros. unfold compare_str_packagist, parse_packagist. cbn [obind]. eexists; reflexivity. Qed.
+
+Lemma packagist_str_antisym : forall a b, compare_str_packagist b a = oppO (compare_str_packagist a b).
+Proof. intros. unfold compare_str_packagist, parse_packagist. cbn [obind]. apply cmp_packagist_antisym. Qed.
+
+Lemma packagist_str_refl : forall a, compare_str_packagist a a = Ok Eq.
+Proof. intros. unfold compare_str_packagist, parse_packagist. cbn [obind]. apply cmp_packagist_refl. Qed.
+
+Lemma packagist_str_laws_on_valid : forall a b c,
+  valid_packagist_string a = true -> valid_packagist_string b = true -> valid_packagist_string c = true ->
+  (leO (compare_str_packagist a b) = true -> leO (compare_str_packagist b c) = true -> leO (compare_str_packagist a c) = true) /\
+  (compare_str_packagist a b = Ok Eq -> compare_str_packagist a c = compare_str_packagist b c).
+Proof.
+  intros a b c. unfold valid_packagist_string, compare_str_packagist, parse_packagist. cbn [obind]. intros Ha Hb Hc.
+  split; [apply (proj1 cmp_packagist_laws_on_valid) | apply (proj2 cmp_packagist_laws_on_valid)]; assumption.
+Qed.
